@@ -4,6 +4,7 @@ package main
 import (
 	"encoding/binary"
 	"fmt"
+	"os"
 	"runtime"
 	"strings"
 	"time"
@@ -819,6 +820,11 @@ func (h *H) restart(A, B *Node) *Node {
 }
 
 func (h *H) runLink() {
+	if os.Getenv("XV_ONLY") == "twopeers" {
+		// debugging aid: the two-peers scenarios alone
+		h.twoPeers()
+		return
+	}
 	type pair struct{ A, B *Node }
 	var pairs []pair
 	limits := []int{0, 2}
